@@ -12,6 +12,7 @@ import (
 	"net/http"
 	"os"
 	"strconv"
+	"sync"
 	"time"
 
 	fphttp2 "github.com/wi1dcard/fingerproxy/pkg/http2"
@@ -298,6 +299,88 @@ func readNothing(w http.ResponseWriter, r *http.Request) {
 	<-r.Context().Done()
 }
 
+// closeBody: a handler that closes the request body at once and then stays (the stream remains open).  DATA that keeps
+// arriving is discarded by the server, which must return its connection-level credit - padding included - right away.
+var (
+	cbMu      sync.Mutex
+	cbClosed  = map[string]chan struct{}{}
+	cbRelease = map[string]chan struct{}{}
+)
+
+func cbChans(tag string) (chan struct{}, chan struct{}) {
+	cbMu.Lock()
+	defer cbMu.Unlock()
+	if cbClosed[tag] == nil {
+		cbClosed[tag], cbRelease[tag] = make(chan struct{}), make(chan struct{})
+	}
+	return cbClosed[tag], cbRelease[tag]
+}
+
+func closeBody(w http.ResponseWriter, r *http.Request) {
+	closed, release := cbChans(r.Header.Get("X-Vf-Tag"))
+	r.Body.Close()
+	close(closed)
+	select {
+	case <-release:
+	case <-r.Context().Done():
+	}
+}
+
+func closedBodyScenario(addr string, r *rec, rng *rand.Rand, idx int) {
+	r.ev(map[string]any{"op": "reset", "scenario": fmt.Sprintf("recv-closedbody-%d", idx)})
+	c, err := dialPlain(addr, r)
+	if err != nil {
+		r.notes = append(r.notes, "dial: "+err.Error())
+		return
+	}
+	defer c.cl.Close()
+	c.cl.Conn.Write(h2raw.Settings())
+	if err := c.barrier(); err != nil {
+		return
+	}
+	tag := fmt.Sprintf("cb%d", idx)
+	closed, release := cbChans(tag)
+	defer close(release)
+	c.cl.Conn.Write(h2raw.Headers(1, false, reqBlock("POST", 0, tag), nil, 0))
+	c.r.ev(map[string]any{"op": "open", "s": 1, "body": 0, "adv": 1 << 20})
+	select {
+	case <-closed:
+	case <-time.After(5 * time.Second):
+		r.notes = append(r.notes, "closeBody handler never ran")
+		return
+	}
+	// far below the stream window (whose credit is not returned for discarded data), far above the batching bound in padding alone
+	frames := 120 + rng.Intn(120)
+	for i := 0; i < frames; i++ {
+		n := []int{1, 7, 100, 900}[rng.Intn(4)]
+		pad := -1
+		switch rng.Intn(3) {
+		case 0:
+			pad = rng.Intn(256)
+		case 1:
+			pad = 200 + rng.Intn(56)
+		}
+		fr := h2raw.Data(1, false, make([]byte, n), pad)
+		c.cl.Conn.Write(fr)
+		c.r.ev(map[string]any{"op": "up_data", "s": 1, "n": len(fr) - 9, "overrun": false})
+		if rng.Intn(25) == 0 {
+			if err := c.barrier(); err != nil {
+				return
+			}
+		}
+	}
+	for i := 0; i < 2; i++ {
+		if err := c.barrier(); err != nil {
+			return
+		}
+		time.Sleep(10 * time.Millisecond)
+	}
+	if err := c.barrier(); err != nil {
+		return
+	}
+	c.r.ev(map[string]any{"op": "up_quiesce"})
+}
+
 func receiverScenario(addr string, r *rec, rng *rand.Rand, idx int, overrun bool, withRST bool) {
 	name := fmt.Sprintf("recv-%d", idx)
 	if withRST {
@@ -434,6 +517,11 @@ func main() {
 	for i := 0; i < nr/2+2; i++ { // the client gives up in the middle of a body (kept apart: see D16 in DESIGN.md)
 		receiverScenario(addrAll, r, rng, 2000+i, false, true)
 	}
+	addrCB, closeCB := directServer(http.HandlerFunc(closeBody), 1<<20, 1<<20)
+	for i := 0; i < nr/4+2; i++ { // the handler closed the request body and stays: discarded DATA, padded or not, is credited back at once
+		closedBodyScenario(addrCB, r, rng, 3000+i)
+	}
+	closeCB()
 	f.Close()
 	st.Close()
 	closeAll()
